@@ -13,7 +13,8 @@ COQ_CASE_TYPE = "case"
 COQ_RUN = "run_case"
 TABLE_CONSTRUCTS = ["agentset_select_fast", "agentset_select_limit", "agentset_select_keep", "agentset_select_loop",
                     "agentset_select_inplace", "agentset_select_skeleton", "agentset_sort_reverse", "agentset_sort_inplace",
-                    "agentset_shuffle", "agentset_get", "agentset_defaults", "agentset_glue"]
+                    "agentset_shuffle", "agentset_get", "agentset_defaults", "agentset_glue", "agentset_groupby_count",
+                    "agentset_groupby_agg"]
 RULE = ("histories = up to 10 agents of classes A(mesa.Agent), B(A), C(B), D(A) with small int attributes a0..a2 (ties; "
         "a1/a2 missing on some agents), an initial AgentSet (all / subset / permuted / with duplicates / empty) in slot 0 of a "
         "pool of 6 slots, then <= 25 operations select/sort/shuffle (in-place or copying into another slot), groupby (+ count/agg/do), "
@@ -45,6 +46,17 @@ NATTR = 3
 E_ATTR, E_KEY, E_VALUE, E_INDEX = 1, 2, 3, 4
 _EXC_KIND = {AttributeError: E_ATTR, KeyError: E_KEY, ValueError: E_VALUE, IndexError: E_INDEX}
 PARENT = {0: None, 1: 0, 2: 1, 3: 0}
+NAMES = ["", "a", "ab", "abc", "b", "ba", "B", "aa", "z", "Zz"]     # Model/AgentSet.v: names
+
+
+def _enc_str(x):
+    """Model/AgentSet.v enc_str 3: pad with 0 to three characters, base 128"""
+    cs = [ord(c) for c in x] + [0, 0, 0]
+    return (cs[0] * 128 + cs[1]) * 128 + cs[2]
+
+
+def _z(x):
+    return _enc_str(x) if isinstance(x, str) else int(x)
 
 
 # ------------------------------------------------------------------ generation
@@ -68,7 +80,9 @@ def _rand_pred(rng, depth=0):
     return ["idmod", m, rng.randrange(m)]
 
 
-def _rand_key(rng):
+def _rand_key(rng, names=True):
+    if names and rng.random() < 0.12:
+        return ["name", rng.choice([0, 0, 1, 2])]
     r = rng.random()
     if r < 0.35:
         return ["attr", rng.choice([0, 0, 0, 1, 1, 2])]
@@ -149,8 +163,10 @@ def _rand_op(rng, filled, n):
         return ["shuffle", s, inplace, d]
     if r < 0.51:
         return ["groupby", s, _rand_key(rng), rng.choice(["agentset", "list"])]
+    if r < 0.535:
+        return ["groupget", s, _rand_key(rng, names=False), rng.randint(-1, 3), d]
     if r < 0.545:
-        return ["groupget", s, _rand_key(rng), rng.randint(-1, 3), d]
+        return ["grouplookup", s, _rand_key(rng, names=False), rng.randint(-1, 3), rng.choice(["agentset", "list"])]
     if r < 0.58:
         w = rng.random()
         if w < 0.3:
@@ -251,6 +267,12 @@ def _corner_cases():
         ["sort", 0, ["pair", ["attr", 0], ["idmod", 2]], False, False, 1], ["sort", 0, ["pair", ["attr", 0], ["idmod", 2]], True, False, 2],
         ["sort", 1, ["pair", ["idmod", 2], ["neg", 0]], True, True, 0], ["sort", 0, ["pair", ["attr", 0], ["attr", 1]], True, True, 0],
         ["sort", 2, ["pair", ["cls"], ["attr", 0]], False, False, 3]]}
+    yield {"seed": 1, "agents": [[0, [[0, v], [1, w]]] for v, w in [(4, 0), (2, 1), (6, 1), (12, 0), (0, 1), (7, 0), (9, 1), (3, 0)]],
+           "init": [1, 2, 3, 4, 5, 6, 7, 8], "ops": [
+        ["sort", 0, ["name", 0], True, False, 1], ["sort", 0, ["name", 0], False, False, 2], ["groupby", 0, ["name", 0], "agentset"],
+        ["sort", 0, ["pair", ["attr", 1], ["name", 0]], True, True, 0], ["groupcount", 0, ["name", 0]], ["map", 0, ["key", ["name", 0]]],
+        ["grouplookup", 0, ["attr", 1], 1, "list"], ["grouplookup", 0, ["attr", 1], 5, "list"], ["grouplookup", 0, ["attr", 1], 5, "agentset"],
+        ["grouplookup", 0, ["attr", 1], 0, "agentset"]]}
     # every at_most form against the same set
     ams = [["inf"], ["int", 0], ["int", 1], ["int", 2], ["int", 5], ["int", 6], ["frac", 0, 0], ["frac", 1, 0],
            ["frac", 1, 1], ["frac", 1, 2], ["frac", 3, 2], ["frac", 1, 3], ["frac", 7, 3], ["frac", 15, 4]]
@@ -416,6 +438,9 @@ def _mk_key(k, as_callable=False):
     if kind == "cls":
         cl = _classes()
         return lambda a: cl.index(type(a))
+    if kind == "name":        # a string key
+        name = f"a{k[1]}"
+        return lambda a: NAMES[getattr(a, name) % 10]
     raise ValueError(k)
 
 
@@ -760,6 +785,23 @@ def _run_impl(case, mesa, AgentSet, arm):
                     if res is not gb:
                         fail(i, "C03/groupby/do-returns-other-object", f"{op}: do did not return the GroupBy itself")
                     ret = [1 if res is gb else 0]
+            elif kind == "grouplookup":
+                key, kvq, rt = op[2], op[3], op[4]
+                kf = _mk_key(key)
+                kc = _mk_key(key, as_callable=True)
+                keys = _attempt(lambda: [kc(a) for a in before])
+                gb = st.groupby(kf, result_type=rt)
+                if keys[0] != "ok":
+                    fail(i, "C03/groupby/no-exception", f"{op} on {ids(before)}: the key raises {keys[1].__name__} but groupby returned")
+                res = list(gb.groups[kvq])
+                if keys[0] == "ok" and kvq in keys[1]:
+                    e = [a for a, ka in zip(before, keys[1]) if ka == kvq]
+                    if res != e:
+                        fail(i, "C03/groupby/group-is-not-the-members-with-that-key-in-order", f"{op} on {ids(before)}: got {ids(res)}, expected {ids(e)}")
+                elif rt == "agentset":
+                    fail(i, "C03/groupby/empty-group", f"{op} on {ids(before)}: groups[{kvq}] exists although no member has that key")
+                # an absent key on result_type="list" (defaultdict creates an empty group): boundary, not judged
+                ret = [len(res)] + ids(res)
             elif kind in ("groupmap", "groupdo"):
                 key, rt = op[2], op[3]
                 kf = _mk_key(key)
@@ -1001,12 +1043,14 @@ def _run_impl(case, mesa, AgentSet, arm):
             exc = e
         ops_for_model.append(mop)
         if exc is None:
-            obs.append([0] + [int(x) for x in ret] + obs_state())
+            obs.append([0] + [_z(x) for x in ret] + obs_state())
             check_state(i, kind, touched)
         else:
             k = _EXC_KIND.get(type(exc))
             expected = False
-            if k == E_ATTR and kind == "groupmap":
+            if k == E_ATTR and kind == "grouplookup":
+                expected = _would_raise_attr(op, before, cl)
+            elif k == E_ATTR and kind == "groupmap":
                 gmk = op[4]
                 expected = (_would_raise_attr(op, before, cl) or (gmk[0] == "get" and op[3] == "list" and bool(before))
                             or (gmk[0] in ("sum", "get") and any(f"a{gmk[1]}" not in vars(a) for a in before)))
@@ -1019,6 +1063,10 @@ def _run_impl(case, mesa, AgentSet, arm):
                 expected = _would_raise_attr(op, before, cl)
             elif k == E_KEY and kind == "remove":
                 expected = byid[op[2]] not in before
+            elif k == E_KEY and kind == "grouplookup":
+                kc = _mk_key(op[2], as_callable=True)
+                ks = _attempt(lambda: [kc(a) for a in before])
+                expected = ks[0] == "ok" and op[3] not in ks[1] and op[4] == "agentset"
             elif k == E_KEY and kind == "groupget":
                 kc = _mk_key(op[2], as_callable=True)
                 ks = _attempt(lambda: [kc(a) for a in before])
@@ -1056,7 +1104,7 @@ def _would_raise_attr(op, before, cl):
             for a in before:
                 if f is not None:
                     f(a)
-        elif kind in ("sort", "groupby", "groupget", "groupcount", "groupagg", "groupdoset", "groupmap", "groupdo"):
+        elif kind in ("sort", "groupby", "groupget", "grouplookup", "groupcount", "groupagg", "groupdoset", "groupmap", "groupdo"):
             kc = _mk_key(op[2], as_callable=True)
             for a in before:
                 kc(a)
@@ -1113,6 +1161,8 @@ def _c_key(k):
         return "KId"
     if kind == "idmod":
         return f"(KIdMod {L.z(k[1])})"
+    if kind == "name":
+        return f"(KName {L.z(k[1])})"
     return "KCls"
 
 
@@ -1157,6 +1207,8 @@ def _c_op(op):
     if k == "setcmp":
         c = {"eq": "CEq", "le": "CLe", "disjoint": "CDisjoint"}[op[3]]
         return f"SetCmp {s} {L.z(op[2])} {c}"
+    if k == "grouplookup":
+        return f"GroupLookup {s} {_c_key(op[2])} {L.z(op[3])} {L.b(op[4] == 'agentset')}"
     if k == "groupget":
         return f"GroupGet {s} {_c_key(op[2])} {L.z(op[3])} {L.z(op[4])}"
     if k == "groupcount":
